@@ -271,6 +271,7 @@ def run(ctx, config='rel-all'):
             check('remove', 'memmove count is len - (idx + ch_len)', eqn(I, cp[0].args[2], app('sub', LEN, nxt), f), show(strip(cp[0].args[2]))[:80])
             check('remove', 'len := len - ch_len', eqn(I, sl[0].args[1], app('sub', LEN, w), f), show(strip(sl[0].args[1]))[:80])
             check('remove', 'returns the removed char', r.ret == lu[0].args[0])
+            check('remove', 'the memmove and the length update lie on every path that returns', arena.on_every_return_path(I, cp[0]) and arena.on_every_return_path(I, sl[0]))
         else:
             check('remove', 'shape (one memmove, one set_len, one len_utf8)', False)
     b = string_method(db, 'insert_bytes')
@@ -298,6 +299,7 @@ def run(ctx, config='rel-all'):
             check('insert_bytes', 'len := len + amt', eqn(I, sl[0].args[1], app('add', LEN, amt), f))
             ev = r.events
             check('insert_bytes', 'order: reserve, shift tail, copy bytes, set_len', rs and ev.index(rs[0]) < ev.index(cp[0]) < ev.index(cp[1]) < ev.index(sl[0]))
+            check('insert_bytes', 'reserve, both copies and the length update lie on every path that returns', bool(rs) and all(arena.on_every_return_path(I, x) for x in (rs[0], cp[0], cp[1], sl[0])))
         else:
             check('insert_bytes', 'shape (two copies, one set_len)', False)
     # ---- thin compositions: the bytes handed to the byte vector are exactly the UTF-8 encoding of the argument
